@@ -9,5 +9,14 @@ if r['kind'] == 'graph':
     problems, obs, trace = R.play_graph(fggs, r['calls'])
 else:
     problems, obs, trace = R.play_hrg(fggs, r['calls'], fgg=(r['kind'] == 'fgg'))
+if not problems and r.get('other_calls') is not None:
+    o1, o2 = {}, {}
+    if r['kind'] == 'graph':
+        _, obs1, _ = R.play_graph(fggs, r['calls'], out=o1)
+        _, obs2, _ = R.play_graph(fggs, r['other_calls'], out=o2)
+    else:
+        _, obs1, _ = R.play_hrg(fggs, r['calls'], fgg=(r['kind'] == 'fgg'), out=o1)
+        _, obs2, _ = R.play_hrg(fggs, r['other_calls'], fgg=(r['kind'] == 'fgg'), out=o2)
+    problems = R.compare_objects(o1['obj'], obs1, o2['obj'], obs2)
 print('replay calls', r['calls'], 'outcomes', [t[1] for t in trace], 'problems', problems)
 sys.exit(10 if problems else 11)
